@@ -111,7 +111,26 @@ func (r *mfRunner) Close() {
 	r.in.Close()
 }
 
-func (r *mfRunner) Oracle() []string { return r.in.Oracle() }
+// Oracle: the inner runner's direct-oracle lines minus the clauses that presuppose an open segment after every write
+// (the unchanged tree has none after a failed rotation), so that they do not crowd out the others.
+func (r *mfRunner) Oracle() []string {
+	all := append([]string{}, r.in.fails...)
+	if r.in.orc != nil {
+		all = append(all, r.in.orc.fails...)
+	}
+	var out []string
+	for _, l := range all {
+		if strings.Contains(l, "files in Directory, expected") || strings.Contains(l, "TARGETDURATION 0 <") ||
+			strings.Contains(l, "disagree") {
+			continue
+		}
+		out = append(out, l)
+	}
+	if len(out) > 8 {
+		out = out[:8]
+	}
+	return out
+}
 
 var mfFileRe = regexp.MustCompile(`^([0-9a-f]{12}_[a-z]+[0-9]*_seg)([0-9]+)\.(mp4|ts)$`)
 
